@@ -314,6 +314,9 @@ pub fn run(ctx: &mut Ctx) {
         obs.nontrivial(nt);
         Ok(())
     });
+    if crate::util::violated(ctx) {
+        return;
+    }
     let strat_tape = (
         0..2usize,
         phase_strategy(5, 12),
@@ -331,6 +334,9 @@ pub fn run(ctx: &mut Ctx) {
         Ok(())
     });
 
+    if crate::util::violated(ctx) {
+        return;
+    }
     // negative controls: the same oracle must reject the non-atomic twins
     let script = vec![
         Phase { writes: vec![0], await_acks: true, reads: vec![0] },
